@@ -183,6 +183,8 @@ def run_case(case, res):
         desc = f"{op}({k!r})"
         if op == "set":
             v = (v, step)  # unique value per store: a read identifies the store it observed
+            if aux % 9 == 5:
+                v = [None, 0, "", False, (), 0.0][step % 6]     # None and falsy objects are values like any other
             if aux % 4 == 0 and k in m.val:
                 v = m.val[k]   # the very same object is stored again (a refresh): still a store, still one more use
             desc = f"store {k!r}"
